@@ -97,6 +97,29 @@ def directed(rng):
                     continue
                 out.append(([f"file x.cab {cab.hex()}", "new cab", f"param i0 DECOMPBUF {rng.choice([4, 5, 4096])}", "open i0 x.cab", "extract i0 h0 0 o", "close i0 h0", "destroy i0"],
                             dict(family="cab.stream-ends-early", comp=comp & 15, plen=plen)))
+    # a folder that declares NO data blocks with a member of non-zero length in it, salvage mode (strict mode refuses
+    # it up front), as the first thing this decompressor extracts and again after another folder was torn down
+    for comp in (0, 1, 2 | 10 << 8, 3 | 15 << 8):
+        try:
+            cab, _ = minicab.build([(comp, []), (0, [(b"0123456789", 10)])], [dict(name=b"z.bin", length=7, offset=0, folder=0), dict(name=b"ok.bin", length=10, offset=0, folder=1)])
+        except Exception:
+            continue
+        for order in ((0,), (0, 1, 0), (1, 0)):
+            for salv in (1, 0):
+                out.append(([f"file x.cab {cab.hex()}", "new cab", f"param i0 SALVAGE {salv}", "open i0 x.cab"] + [f"extract i0 h0 {k} o{j}" for j, k in enumerate(order)] + ["close i0 h0", "destroy i0"],
+                            dict(family="cab.zero-block-folder", comp=comp & 15, salvage=salv, order=order)))
+    # KWAJ headers with the name (0x08) and/or extension (0x10) field, the file ENDING inside the field with no NUL
+    # among the bytes present; and complete fields of every length without / with the terminator
+    for flags in (0x08, 0x10, 0x18):
+        for nlen in range(0, 10):
+            for term in (False, True):
+                field = bytes(rng.choice(b"ABCDEFGH") for _ in range(nlen)) + (b"\0" if term else b"")
+                for tail in (b"", b"\x41\x42\x43\x44\x45\x46\x47\x48\x49\x4a\x4b\x4c"):
+                    if flags == 0x18: body = b"NAME\0" + field + tail
+                    else: body = field + tail
+                    kw = b"KWAJ\x88\xf0\x27\xd1" + struct.pack("<HHH", 0, 14 + len(body), flags) + body
+                    out.append(([f"file f.kwj {kw.hex()}", "new kwaj", "open i0 f.kwj", "extract i0 h0 - o", "close i0 h0", "destroy i0"],
+                                dict(family="kwaj.name-field", flags=flags, nlen=nlen, term=term, tail=len(tail))))
     # a member declared longer than what its folder's data blocks hold (the declared end still inside
     # num_blocks * 32768, so extract()'s up-front test lets it through): the decoder runs out of blocks
     # in the middle of the member; whatever it then hands to write() must not come from fresh memory
